@@ -185,6 +185,31 @@ fn main() {
             for p in &progs { for input in &inputs {
                 emit(&Case { lim: None, det: false, input: input.clone(), env: vec![], prog: p.clone() }, &mut w);
             } }
+            // token production switched on and off by nested atomicity / look-ahead inside a sequence that fails afterwards
+            {
+                let outers: Vec<fn(Prog) -> Prog> = vec![|p| p, |p| Prog::Atomic(0, Box::new(p)), |p| Prog::Atomic(1, Box::new(p)), |p| Prog::Atomic(2, Box::new(p)),
+                    |p| Prog::Look(true, Box::new(p)), |p| Prog::Look(false, Box::new(p)), |p| Prog::Rule(3, Box::new(Prog::Atomic(0, Box::new(p))))];
+                let inners: Vec<fn(Prog) -> Prog> = vec![|p| p, |p| Prog::Atomic(0, Box::new(p)), |p| Prog::Atomic(1, Box::new(p)), |p| Prog::Atomic(2, Box::new(p)),
+                    |p| Prog::Atomic(1, Box::new(Prog::Look(true, Box::new(p)))), |p| Prog::Atomic(2, Box::new(Prog::Rule(1, Box::new(p))))];
+                let tails = [Prog::Err, Prog::Str("b".into()), Prog::Eoi];
+                let alts = [Prog::Str("a".into()), Prog::Ok, Prog::Rule(1, Box::new(Prog::Str("ab".into())))];
+                for o in &outers { for i in &inners { for t in &tails { for a in &alts {
+                    let body = Prog::Seq(Box::new(Prog::Then(Box::new(i(Prog::Rule(2, Box::new(Prog::Str("a".into()))))), Box::new(t.clone()))));
+                    let p = o(Prog::Else(Box::new(body), Box::new(a.clone())));
+                    for input in ["", "a", "ab", "aa", "b"] { emit(&Case { lim: None, det: false, input: input.to_string(), env: vec![], prog: p.clone() }, &mut w); }
+                } } } }
+            }
+            // the literal matchers on every ASCII character against itself, its case variants and the character 0x20 away
+            for c in 0u8..128 {
+                let lit = (c as char).to_string();
+                let mut ins: Vec<String> = vec![lit.clone(), ((c ^ 0x20) as char).to_string(), (c as char).to_ascii_uppercase().to_string(), (c as char).to_ascii_lowercase().to_string()];
+                ins.sort(); ins.dedup();
+                for p in [Prog::Ins(lit.clone()), Prog::Str(lit.clone()), Prog::Ins(format!("a{}", lit)), Prog::Range(c as char, c as char), Prog::Until(vec![lit.clone()])] {
+                    for i in &ins { for input in [i.clone(), format!("a{}", i), format!("A{}b", i)] {
+                        emit(&Case { lim: None, det: false, input, env: vec![], prog: p.clone() }, &mut w);
+                    } }
+                }
+            }
             // every primitive, alone and under each wrapper, on characters of every UTF-8 width
             let wide = wide_inputs();
             let mut wl: Vec<Prog> = vec![Prog::Skip(1), Prog::Skip(2), Prog::Cls(vec![('\0', '\u{10ffff}')]), Prog::Range('\u{800}', '\u{10ffff}'), Prog::Range('a', '\u{ffff}'),
